@@ -20,7 +20,7 @@
 EXTENDS Naturals, Sequences, FiniteSets, TLC
 
 CONSTANTS Threads, Items, Joins, Scenarios,
-          FirstCloserOnly   \* FALSE = the code as written; TRUE = proposed repair (see ScopeV2)
+          FirstCloserOnly   \* TRUE = the protocol /repo implements; FALSE = historical variant, spec-level mutation (see ScopeV2)
 
 VARIABLES scn, pi, pc, regS, regE, iter,
           open, count, evSig, evStack,
@@ -30,7 +30,8 @@ VARIABLES scn, pi, pc, regS, regE, iter,
           jst,
           adm, fin, mustAdmit, closeBegun, jdone,
           delivered,     \* some request_stop() on the stop source has returned
-          bad
+          bad,
+          lastT, lastPc  \* export only (hidden by VIEW)
 vars == <<scn, pi, pc, regS, regE, iter, open, count, evSig, evStack, stopReq, ist, seen, jst,
           adm, fin, mustAdmit, closeBegun, jdone, delivered, bad>>
 
@@ -55,6 +56,7 @@ Init ==
   /\ adm = [w \in Items |-> 0] /\ fin = [w \in Items |-> FALSE]
   /\ mustAdmit = [w \in Items |-> FALSE] /\ closeBegun = FALSE /\ jdone = [j \in Joins |-> 0]
   /\ delivered = FALSE /\ bad = "ok"
+  /\ lastT = 0 /\ lastPc = ""
 
 Finish(t) == /\ pi' = [pi EXCEPT ![t] = @ + 1]
              /\ pc' = [pc EXCEPT ![t] = IF pi[t] + 1 > Len(Prog(t)) THEN "end" ELSE "op"]
@@ -157,9 +159,12 @@ StepEvWCas(t) ==
 Step(t) == \/ StepOp(t) \/ StepWait(t) \/ StepTrsLoad(t) \/ StepTrsCas(t) \/ StepRdFsub(t) \/ StepEsFand(t) \/ StepRs(t)
            \/ StepEvXchg(t) \/ StepEvPop(t) \/ StepEvWLoad(t) \/ StepEvWCas(t)
 AllEnd == \A t \in Threads : pc[t] = "end"
-Next == (\E t \in Threads : Step(t)) \/ (AllEnd /\ UNCHANGED vars)
-Spec == Init /\ [][Next]_vars
-FairSpec == Spec /\ \A t \in Threads : WF_vars(Step(t))
+ghosts == <<lastT, lastPc>>
+Next == \/ \E t \in Threads : Step(t) /\ lastT' = t /\ lastPc' = pc[t]
+        \/ (AllEnd /\ UNCHANGED vars /\ UNCHANGED ghosts)
+Spec == Init /\ [][Next]_<<vars, ghosts>>
+View == vars
+FairSpec == Spec /\ \A t \in Threads : WF_<<vars, ghosts>>(Step(t) /\ lastT' = t /\ lastPc' = pc[t])
 
 AllAdmittedFinished == \A w \in Items : adm[w] = 1 => fin[w]
 JoinOnlyAfterAllDone == \A j \in Joins : jst[j] = "done" => (~open /\ count = 0 /\ AllAdmittedFinished)
